@@ -216,9 +216,10 @@ class BaseEMSurvey(ObjectBase, ABC):  # pylint: disable=too-many-public-methods
         if "Property groups" in self.metadata["EM Dataset"]:
             components = {}
             for name in self.metadata["EM Dataset"]["Property groups"]:
-                prop_group = self.find_or_create_property_group(name=name)
+                # a group of the linked entity (or one that is gone) is not created here
+                prop_group = self.get_property_group(name)[0]
 
-                if prop_group.properties is None:
+                if prop_group is None or prop_group.properties is None:
                     continue
 
                 components[name] = [
